@@ -114,10 +114,49 @@ def reraise_view(fn: ast.AST) -> ast.AST:
     return view
 
 
-def rcfg(ctx, f):
-    """CFG of FuncInfo `f` with safe_reraise blocks modelled as re-raising."""
+def rcfg(ctx, f, strict_exc: bool = False):
+    """CFG of FuncInfo `f` with safe_reraise blocks modelled as re-raising.
+    strict_exc=True: only `except BaseException` / bare `except` stop exception propagation
+    (`except Exception` lets KeyboardInterrupt / CancelledError / GreenletExit through)."""
     ctx.functions_analysed.add(f.key)
+    if strict_exc:
+        return ctx.cfg(reraise_view(f.node), exception_is_catch_all=False)
     return ctx.cfg(reraise_view(f.node))
+
+
+_LOG_LEVELS = {"debug", "info", "warning", "warn", "error", "exception", "critical", "log"}
+
+
+def is_logging_call(nm: str) -> bool:
+    parts = nm.split(".")
+    if len(parts) >= 2 and parts[-1] in _LOG_LEVELS and parts[-2] in ("logger", "log", "_logger", "_log"):
+        return True
+    return nm in ("util.warn", "util.warn_limited", "warn", "warnings.warn")
+
+
+def calm(g):
+    """edge_ok: statements whose only calls are logging / warning calls do not raise
+    (assumption recorded in the evidence: diagnostics are not a fault source)."""
+    s = set()
+    pure = ("isinstance", "issubclass", "len", "bool", "id", "type")
+    for n in g.nodes:
+        cs = own_calls(n)
+        if cs and n.kind in ("stmt", "test") and not isinstance(n.stmt, (ast.Raise, ast.Assert)) \
+                and all(call_name(c) in pure for c in cs):
+            s.add(n.id)
+            continue
+        if cs and n.kind == "stmt" and isinstance(n.stmt, ast.Expr):
+            names = [call_name(c) for c in cs]
+            outer = call_name(n.stmt.value) if isinstance(n.stmt.value, ast.Call) else None
+            if outer and is_logging_call(outer) and all(
+                nm is None or is_logging_call(nm) or nm in ("bool", "len", "str", "repr", "id") or nm.endswith(".join")
+                for nm in names
+            ):
+                s.add(n.id)
+
+    def ok(a, b, lab):
+        return not (a in s and lab == "exc")
+    return ok
 
 
 def quiet(g):
@@ -447,3 +486,123 @@ def attr_store_sites(ix, attr: str):
                 if any(isinstance(a, ast.Constant) and a.value == attr for a in n.args):
                     out.append((owner_key(m, n), f"setattr:{attr}", n, m))
     return out
+
+
+# ---------------------------------------------------------------------- tiny declared-type resolver
+def _ann_class(ix, m, ann: Optional[ast.expr]):
+    """ClassInfo named by an annotation (`X`, `Optional[X]`, `"X"`), else None."""
+    from ..index import ClassInfo
+    if ann is None:
+        return None
+    if isinstance(ann, ast.Constant) and isinstance(ann.value, str):
+        try:
+            ann = ast.parse(ann.value, mode="eval").body
+        except SyntaxError:
+            return None
+    if isinstance(ann, ast.Subscript) and (dotted(ann.value) or "").split(".")[-1] in ("Optional", "ClassVar", "Final"):
+        return _ann_class(ix, m, ann.slice)
+    d = dotted(ann)
+    if not d:
+        return None
+    r = ix.resolve(m, d)
+    return r if isinstance(r, ClassInfo) else None
+
+
+def receiver_class(ix, m, store_stmt: ast.AST, receiver: str):
+    """Declared class of the receiver expression (`self`, `param`, `self.attr`) of an attribute
+    store inside module m, read from parameter / class-level annotations; None if unknown."""
+    pm = m.parents()
+    fn = cls = None
+    cur = pm.get(store_stmt)
+    while cur is not None:
+        if fn is None and isinstance(cur, (ast.FunctionDef, ast.AsyncFunctionDef)):
+            fn = cur
+        if isinstance(cur, ast.ClassDef):
+            cls = cur
+            break
+        cur = pm.get(cur)
+    ci = None
+    if cls is not None:
+        for c in ix._all_classes(m):
+            if c.node is cls:
+                ci = c
+    parts = receiver.split(".")
+    if parts == ["self"] or parts == ["cls"]:
+        return ci
+    if len(parts) == 1 and fn is not None:
+        a = fn.args
+        for arg in a.posonlyargs + a.args + a.kwonlyargs:
+            if arg.arg == parts[0]:
+                return _ann_class(ix, m, arg.annotation)
+        return None
+    if len(parts) == 2 and parts[0] == "self" and ci is not None:
+        for k in ix.mro(ci):
+            for st in k.node.body:
+                if isinstance(st, ast.AnnAssign) and isinstance(st.target, ast.Name) and st.target.id == parts[1]:
+                    r = _ann_class(ix, k.module, st.annotation)
+                    if r is not None:
+                        return r
+        return None
+    return None
+
+
+# ---------------------------------------------------------------------- more exception-edge assumptions
+def fin_quiet(g):
+    """edge_ok: statements of a `finally` block do not raise themselves (obligations placed in a
+    finally are judged under the assumption that the clean-up code runs to completion)."""
+    s = {n.id for n in g.nodes if n.copy}
+
+    def ok(a, b, lab):
+        return not (a in s and lab == "exc")
+    return ok
+
+
+def _trivial_body(fn: ast.AST) -> bool:
+    body = [s for s in fn.body if not (isinstance(s, ast.Expr) and isinstance(s.value, ast.Constant))]
+    if len(body) != 1:
+        return False
+    st = body[0]
+    if isinstance(st, ast.Raise):
+        return True  # abstract placeholder (`raise NotImplementedError()`): never the run-time target
+    return isinstance(st, ast.Return) and st.value is not None and not any(
+        isinstance(x, (ast.Call, ast.Await, ast.Subscript)) for x in ast.walk(st.value))
+
+
+def trivial_predicates(ctx, f):
+    """edge_ok: test nodes of `f` whose calls are all argument-less `self.m()` where every
+    definition of `m` in the hierarchy of f's class is a single `return <call-free expr>` cannot raise."""
+    ix = ctx.index
+    g_cache = {}
+
+    def is_trivial(name: str) -> bool:
+        if name in g_cache:
+            return g_cache[name]
+        root = f.cls
+        ok = root is not None
+        if ok:
+            tops = [k for k in ix.mro(root) if name in k.methods] or [root]
+            fam = set()
+            for t in tops[-1:]:
+                fam.add(t)
+                fam.update(ix.subclasses(t))
+            defs = [k.methods[name] for k in fam if name in k.methods]
+            ok = bool(defs) and all(_trivial_body(d.node) for d in defs)
+        g_cache[name] = ok
+        return ok
+
+    def make(g):
+        s = set()
+        for n in g.nodes:
+            if n.kind != "test":
+                continue
+            cs = own_calls(n)
+            if cs and all(
+                (call_name(c) or "").startswith("self.") and (call_name(c) or "").count(".") == 1
+                and not c.args and not c.keywords and is_trivial(call_name(c)[5:]) for c in cs
+            ):
+                s.add(n.id)
+
+        def ok(a, b, lab):
+            return not (a in s and lab == "exc")
+        return ok
+    return make
